@@ -56,7 +56,9 @@ func SafeMul[T Integer](x T, y T) (T, error) {
 
 	result := x * y
 
-	if result/x != y {
+	// Both divisions are needed: for x == -1 and y == MinInt the wrapped product is MinInt again,
+	// and MinInt / -1 wraps back to MinInt, so result/x == y although the multiplication overflowed.
+	if result/x != y || result/y != x {
 		return 0, ierrors.WithMessagef(ErrIntegerOverflow, "%d * %d", x, y)
 	}
 
